@@ -109,10 +109,10 @@ class guard:
     """watchdog for one virtual-time run: a run that spins or blocks (e.g. the datetime-clock spin branch of
     VirtualTimeScheduler.start re-acquiring its lock) is interrupted by SIGALRM and reported as raised 'HANG'"""
 
-    hangs = 0          # after a few interrupted runs in one process the remaining ones are cut short (1 s) to bound the wall time
+    hangs = 0          # after a few interrupted runs in one process the remaining ones are cut short (0.3 s) to bound the wall time
 
     def __init__(self, seconds=4.0):
-        self.seconds = seconds if guard.hangs < 5 else 1.0
+        self.seconds = seconds if guard.hangs < 5 else 0.3
 
     def __enter__(self):
         import signal
